@@ -302,6 +302,15 @@ def prop_multistep(case, r):
     f = lambda u, t: A @ u + g(t)  # noqa: E731
     alpha, beta = list(cls.alpha), list(cls.beta)
     k = len(alpha)
+    # the coefficients themselves: order conditions of the documented scheme (forward / backward Euler: order 1, trapezoidal rule: 2,
+    # two-step Adams-Moulton "third order implicit scheme": 3) on an equidistant grid ..., t_n = 0, t_{n+1} = 1
+    order = {'AdamsBashforthExplicit1Step': 1, 'BackwardEuler': 1, 'AdamsMoultonImplicit1Step': 2, 'AdamsMoultonImplicit2Step': 3}[case['cls']]
+    taus = np.arange(-(k - 1), 2, dtype=float)  # times of u_{n-k+1}, ..., u_n, u_{n+1}
+    r.close(abs(sum(alpha) + 1.0), 1e-14, 'multistep-consistency', f'{case["cls"]}: alpha {alpha} does not sum to -1')
+    for q in range(order):
+        lhs = sum(beta[j] * taus[j] ** q for j in range(k + 1))
+        ex = (1.0 - sum(-alpha[j] * taus[j] ** (q + 1) for j in range(k))) / (q + 1)
+        r.close(abs(lhs - ex), 1e-14, 'multistep-order-condition', lambda: f'{case["cls"]}: sum beta_j tau_j^{q} = {lhs!r}, expected {ex!r}')
     hist_t, hist_u = [t0], [_np(case['u0'])]
     I = np.eye(n)
     for i in range(nsteps):
